@@ -207,6 +207,7 @@ type k3run struct {
 	steps    []k3step
 	trace    []string
 	stuck    string
+	unmapped string
 	overlap  bool
 	terms    int
 	afterTrm int
@@ -385,8 +386,12 @@ func runK3(node gen.Node, helper gen.PID, sc k3scenario, rng *Rng, mode int, seq
 	var choices []string
 	record := func(l []string, ok bool, from, to, th string) bool {
 		if !ok {
-			run.stuck = fmt.Sprintf("unmapped transition %s: %s -> %s", th, from, to)
-			return false
+			// the implementation made a transition the model has no label for: keep scheduling (the oracles
+			// still observe the run); the lockstep comparison reports the divergence
+			if run.unmapped == "" {
+				run.unmapped = fmt.Sprintf("unmapped transition %s: %s -> %s", th, from, to)
+			}
+			l = []string{"unmapped:" + from + "->" + to}
 		}
 		var st k3step
 		st.labels = l
